@@ -25,7 +25,7 @@ ASSUMPTIONS = [
 
 def floors(tier):
     return {"states_checked": 3000, "pairs_matched_bit_exact": 8000, "chains_skipping_an_iterate": 60, "restart_states_checked": 150,
-            "inherited_pairs_checked": 300, "operators_spd_checked": 2500, "diag_operators": 800, "diag_operators_with_zero_columns": 200, "rejected_pair_then_failed_search_then_progress": 20, "second_continuations_from_one_checkpoint_object": 40, "switch_states_checked": 300, "__nontrivial__": 150}
+            "inherited_pairs_checked": 300, "operators_spd_checked": 2500, "diag_operators": 800, "diag_operators_with_zero_columns": 200, "diag_requested_again_after_in_place_edit": 300, "rejected_pair_then_failed_search_then_progress": 20, "second_continuations_from_one_checkpoint_object": 40, "switch_states_checked": 300, "__nontrivial__": 150}
 
 
 def cases(tier, seed):
@@ -278,6 +278,19 @@ def diag_case(spec, out, keys):
             out.count("skipped_ill_conditioned")
             continue
         got = np.asarray(extract_hess_inv_diag(op))
+        if j % 2 == 0:
+            # the caller turns the array it received into standard deviations in place, then asks again
+            first = np.array(got, copy=True)
+            try:
+                np.sqrt(np.abs(got), out=got)
+            except (ValueError, TypeError):
+                pass
+            got = np.asarray(extract_hess_inv_diag(op))
+            out.count("diag_requested_again_after_in_place_edit")
+            if not np.array_equal(got, first):
+                out.violate("diag_differs_from_dense", f"diag n={n} m={sk.shape[0]}: a second extraction from the same operator, after the caller edited the first "
+                            f"result in place, returns other values (max dev {float(np.max(np.abs(got - first))):.3e})", what="diag_again")
+                return
         out.count("diag_operators")
         scale = float(np.max(np.abs(np.diag(H))))
         tol = 1e3 * kap * EPS * scale
